@@ -39,6 +39,14 @@ type world struct {
 	dbg   *scripted
 }
 
+// newRawWorld: OptDebugger with a fast.Debugger that answers every callback itself (fast/debug.go alone, no fast/debug layer)
+func newRawWorld() *world {
+	w := newWorld(true)
+	w.dbg.stock = nil
+	w.ir.Comp.Globals.Readline = nil
+	return w
+}
+
 func newWorld(debugger bool) *world {
 	w := &world{}
 	w.ir = fast.New()
@@ -77,6 +85,7 @@ type cbRec struct {
 	IP, N, Depth, Pos, Emits int
 	Bp                       bool
 	Cmd                      byte
+	Skip                     bool // the stock debugger returned without prompting (statement without source position)
 }
 
 type scripted struct {
@@ -111,13 +120,15 @@ func (d *scripted) cb(ir *fast.Interp, env *fast.Env, bp bool) fast.DebugOp {
 	if d.i < len(d.script) {
 		c = d.script[d.i]
 	}
-	d.i++
 	d.recs = append(d.recs, cbRec{IP: env.IP, N: len(env.Code), Depth: env.CallDepth, Pos: pos, Emits: len(d.w.emits), Bp: bp, Cmd: c})
 	if len(d.recs) > d.limit {
 		panic(tooMany{})
 	}
-	if d.stock != nil && stockPos != 0 {
-		// a statement with a position: the stock debugger shows it and prompts; answer with the command word
+	if d.stock != nil {
+		// EVERY callback goes through the stock debugger (fast/debug/api.go).  If it prompts, the prompt is answered with
+		// the command word and the command is consumed; if it returns without prompting (statement without source
+		// position) the callback is recorded as skipped, no command is consumed and whatever DebugOp the stock debugger
+		// chose is passed on
 		d.pending = cmdWord[c] + "\n"
 		var op fast.DebugOp
 		if bp {
@@ -125,14 +136,20 @@ func (d *scripted) cb(ir *fast.Interp, env *fast.Env, bp bool) fast.DebugOp {
 		} else {
 			op = d.stock.At(ir, env)
 		}
-		if d.pending != "" && d.stockErr == "" {
-			d.stockErr = fmt.Sprintf("stock debugger did not prompt at callback %d", len(d.recs)-1)
+		if d.pending != "" {
+			d.recs[len(d.recs)-1].Skip = true
+			d.recs[len(d.recs)-1].Cmd = 0
+			if stockPos != 0 && d.stockErr == "" {
+				d.stockErr = fmt.Sprintf("stock debugger did not prompt at callback %d (statement with a source position)", len(d.recs)-1)
+			}
+		} else {
+			d.i++
 		}
 		d.pending = ""
 		return op
 	}
-	// statements without position (token.NoPos) are not shown by the stock debugger (it keeps the current depth
-	// without prompting); the scripted debugger answers them itself
+	// raw layer: the scripted debugger answers every callback itself
+	d.i++
 	switch c {
 	case 's':
 		return fast.DebugOpStep
@@ -242,9 +259,10 @@ func opDepth(c byte, depth int) int {
 	return d
 }
 
-// docStops: the documented rule evaluated on the trace: after a command that requested depth D the next stop is the
+// docStops: the documented rule evaluated on the trace (for the user of the stock debugger the statements without source
+// position do not exist): after a command that requested depth D the next stop is the
 // first statement with CallDepth < D (step: any; next: same or shallower; finish: shallower; continue: none) or a breakpoint
-func docStops(tr []tstmt, script string, def byte, D int) []stopRec {
+func docStops(tr []tstmt, script string, def byte, D int, stock bool) []stopRec {
 	var out []stopRec
 	ci := 0
 	next := func() byte {
@@ -256,6 +274,10 @@ func docStops(tr []tstmt, script string, def byte, D int) []stopRec {
 		return c
 	}
 	for i, s := range tr {
+		if stock && s.Pos == 0 {
+			// through the stock debugger a statement without source position is no stop and changes nothing
+			continue
+		}
 		if s.Depth < D {
 			out = append(out, stopRec{i, false})
 			D = opDepth(next(), s.Depth)
@@ -281,6 +303,9 @@ func mapStops(tr []tstmt, recs []cbRec) ([]stopRec, string) {
 		}
 		if r.Bp && !tr[j].Bp {
 			return out, fmt.Sprintf("Breakpoint callback at a statement that is not a breakpoint (trace index %d)", j)
+		}
+		if r.Skip {
+			continue
 		}
 		if n := len(out); n > 0 && out[n-1].Idx == j && (out[n-1].Bp || !r.Bp) {
 			// same statement twice: only At followed by Breakpoint is possible
@@ -365,6 +390,7 @@ type caseIn struct {
 	Prog   *prog  `json:"prog"`
 	Debug  bool   `json:"debug"`
 	Script string `json:"script"`
+	Raw    bool   `json:"raw_debugger,omitempty"`
 }
 
 // ---------------------------------------------------------------- corpus of recorded findings (run in a child process: may hang)
@@ -416,7 +442,7 @@ func child(path string) {
 		if it.Debug {
 			D = maxInt
 		}
-		out.Doc = docStops(tr, it.Script, def, D)
+		out.Doc = docStops(tr, it.Script, def, D, true)
 	} else {
 		out.Dbg = wd.run(it.Call, it.Debug, it.Script, def, 100000)
 	}
@@ -540,7 +566,7 @@ func main() {
 	}
 	corpus := startCorpus()
 
-	wp, wd := newWorld(false), newWorld(true)
+	wp, wd, wr := newWorld(false), newWorld(true), newRawWorld()
 	cw := vh.NewCases(a, "From Coq Require Import List ZArith Bool.\nFrom Verif Require Import C19.Model.\nImport ListNotations.\nOpen Scope Z_scope.", "case", "mismatches", perShard)
 	wdg := vh.NewWatchdog(rep, 60*time.Second)
 	idx := 0
@@ -561,6 +587,11 @@ func main() {
 			wd = newWorld(true)
 			continue
 		}
+		if e := vh.Catch(func() { wr.ir.Eval(p.Decls) }); e != nil {
+			fail(fmt.Sprint("decl:", p.ID), "declarations rejected with OptDebugger (raw debugger)", p, fmt.Sprint(e), nil)
+			wr = newRawWorld()
+			continue
+		}
 		r0 := wp.run(p.Call, false, "", 'c', 100000)
 		if r0.Panic != "" {
 			fail(fmt.Sprint("plain:", p.ID), "generated program panics in the plain run", p, r0.Panic, nil)
@@ -577,14 +608,14 @@ func main() {
 			return r.Panic == "" && r.Result == r0.Result && fmt.Sprint(r.Emits) == fmt.Sprint(r0.Emits)
 		}
 		if !same(r1) {
-			fail(fmt.Sprintf("%s|debug|all-step", p.Decls+p.Call), "not transparent: single-stepping the whole program changes result / side effects", caseIn{p, true, "s*"},
+			fail(fmt.Sprintf("%s|debug|all-step", p.Decls+p.Call), "not transparent: single-stepping the whole program changes result / side effects", caseIn{p, true, "s*", false},
 				fmt.Sprint(r1.Result, r1.Emits, r1.Panic), fmt.Sprint(r0.Result, r0.Emits))
 			wd = newWorld(true)
 			continue
 		}
 		tr, terr := traceOf(r1.Recs)
 		if terr != "" {
-			fail(fmt.Sprintf("%s|trace", p.Decls+p.Call), terr, caseIn{p, true, "s*"}, nil, nil)
+			fail(fmt.Sprintf("%s|trace", p.Decls+p.Call), terr, caseIn{p, true, "s*", false}, nil, nil)
 			continue
 		}
 		if !sigUnique(tr) || len(tr) == 0 {
@@ -602,31 +633,68 @@ func main() {
 		rep.Dist(fmt.Sprintf("max_depth:%d", len(depths)))
 		rep.Dist(fmt.Sprintf("trace_len:%s", bucket(len(tr))))
 		rep.Dist(fmt.Sprintf("executed_breakpoints:%s", bucket(nbpExec)))
+		// statements without source position in the trace, and those directly followed by a deeper statement
+		// (the epilogue of a return statement followed by the deferred calls of the function)
+		nSynth, nSynthDeeper := 0, 0
+		for i, s := range tr {
+			if s.Pos == 0 {
+				nSynth++
+				if i+1 < len(tr) && tr[i+1].Depth > s.Depth {
+					nSynthDeeper++
+				}
+			}
+		}
+		rep.Dist(fmt.Sprintf("positionless_statements:%s", bucket(nSynth)))
+		rep.Dist(fmt.Sprintf("positionless_statement_followed_by_deeper_frame(deferred call):%s", bucket(nSynthDeeper)))
+		rep.Dist(fmt.Sprintf("defer_statements_in_source:%s", bucket(p.NDefer)))
+		rep.Dist(fmt.Sprintf("recovered_panic_sites_in_source:%s", bucket(p.NPanic)))
 
 		type scr struct {
 			debug bool
 			s     string
+			raw   bool // answered by the scripted fast.Debugger itself instead of the stock debugger
 		}
 		var scripts []scr
 		ln := func() int { return 1 + rng.Intn(3)*rng.Intn(20) + rng.Intn(6) }
-		scripts = append(scripts, scr{true, genScript(rng, "steps", ln())}, scr{true, genScript(rng, "nexts", ln())},
-			scr{true, genScript(rng, "steps", ln()) + "ccc"}, scr{true, strings.Repeat("f", rng.Intn(3)) + genScript(rng, "steps", rng.Intn(4))},
-			scr{true, genScript(rng, "free", 10+ln())}, scr{true, genScript(rng, "freec", 10+ln())}, scr{true, "c" + genScript(rng, "free", 10+ln())},
-			scr{false, genScript(rng, "free", 10+ln())})
+		scripts = append(scripts, scr{true, genScript(rng, "steps", ln()), false}, scr{true, genScript(rng, "nexts", ln()), false},
+			scr{true, genScript(rng, "steps", ln()) + "ccc", false}, scr{true, strings.Repeat("f", rng.Intn(3)) + genScript(rng, "steps", rng.Intn(4)), false},
+			scr{true, genScript(rng, "free", 10+ln()), false}, scr{true, genScript(rng, "freec", 10+ln()), false}, scr{true, "c" + genScript(rng, "free", 10+ln()), false},
+			scr{false, genScript(rng, "free", 10+ln()), false},
+			scr{true, genScript(rng, "steps", ln()), true}, scr{true, genScript(rng, "free", 10+ln()), true})
 		var cscripts []string
 		for _, sc := range scripts {
-			in := caseIn{p, sc.debug, sc.s}
+			in := caseIn{p, sc.debug, sc.s, sc.raw}
 			key := fmt.Sprintf("%s|%v|%s", p.Decls+p.Call, sc.debug, sc.s)
-			r2 := wd.run(p.Call, sc.debug, sc.s, 'c', 1700)
+			if sc.raw {
+				key += "|raw"
+			}
+			var r2 runRes
+			if sc.raw {
+				r2 = wr.run(p.Call, sc.debug, sc.s, 'c', 1700)
+			} else {
+				r2 = wd.run(p.Call, sc.debug, sc.s, 'c', 1700)
+			}
 			ok := true
 			if !same(r2) {
 				fail(key, "not transparent: result / side effects under the scripted debugger differ from the plain run", in,
 					fmt.Sprint(r2.Result, r2.Emits, r2.Panic), fmt.Sprint(r0.Result, r0.Emits))
-				wd = newWorld(true)
-				vh.Catch(func() { wd.ir.Eval(p.Decls) })
+				if sc.raw {
+					wr = newRawWorld()
+					vh.Catch(func() { wr.ir.Eval(p.Decls) })
+				} else {
+					wd = newWorld(true)
+					vh.Catch(func() { wd.ir.Eval(p.Decls) })
+				}
 				ok = false
 			}
 			st, merr := mapStops(tr, r2.Recs)
+			// the callbacks that were stops (prompts), aligned with st
+			var stopRecs []cbRec
+			for _, r := range r2.Recs {
+				if !r.Skip {
+					stopRecs = append(stopRecs, r)
+				}
+			}
 			if ok && merr != "" {
 				fail(key, "stop outside the executed statements: "+merr, in, nil, nil)
 				ok = false
@@ -652,7 +720,7 @@ func main() {
 				// after continue (or with the script exhausted) the next stop is a Breakpoint callback; after step a following
 				// statement of the same activation or of a callee is a stop
 				for k, s := range st {
-					c := r2.Recs[k].Cmd
+					c := stopRecs[k].Cmd
 					var nxt *stopRec
 					if k+1 < len(st) {
 						nxt = &st[k+1]
@@ -662,7 +730,7 @@ func main() {
 						ok = false
 						break
 					}
-					if c == 's' && !(tr[s.Idx].Bp && !s.Bp) && sameActivationOrCallee(tr, s.Idx) && (nxt == nil || nxt.Idx != s.Idx+1) {
+					if c == 's' && !(tr[s.Idx].Bp && !s.Bp) && sameActivationOrCallee(tr, s.Idx) && (sc.raw || tr[s.Idx+1].Pos != 0) && (nxt == nil || nxt.Idx != s.Idx+1) {
 						fail(key, fmt.Sprintf("after step (callback %d, statement %d) the next statement of the same activation/callee is not a stop", k, s.Idx), in, st, nil)
 						ok = false
 						break
@@ -670,7 +738,7 @@ func main() {
 				}
 			}
 			if ok && noResume(sc.s) && sc.debug && !(p.Top && strings.Contains(sc.s, "f")) {
-				want := docStops(tr, sc.s, 'c', D)
+				want := docStops(tr, sc.s, 'c', D, !sc.raw)
 				if fmt.Sprint(st) != fmt.Sprint(want) {
 					fail(key, "stops differ from the documented rule (script never resumes stepping after continue)", in, st, want)
 					ok = false
@@ -678,17 +746,19 @@ func main() {
 				rep.Dist("oracle:documented-rule")
 			} else {
 				rep.Dist("oracle:transparency+breakpoints+step-local")
-				if ok && fmt.Sprint(st) != fmt.Sprint(docStops(tr, sc.s, 'c', D)) {
+				if ok && fmt.Sprint(st) != fmt.Sprint(docStops(tr, sc.s, 'c', D, !sc.raw)) {
 					rep.Dist("resumed-script-deviates-from-documented-rule(finding C19-C class)")
 				}
 			}
 			rep.Count(key, len(r2.Recs) >= 2 && len(depths) >= 2)
-			cscripts = append(cscripts, fmt.Sprintf("(%s, %s, %s)", map[bool]string{true: "StartDebug", false: "StartEval"}[sc.debug], coqCmds(sc.s), coqStops(st)))
+			rep.Dist(map[bool]string{true: "layer:raw fast.Debugger", false: "layer:stock fast/debug.Debugger"}[sc.raw])
+			cscripts = append(cscripts, fmt.Sprintf("(%s, %s, %s, %s)", map[bool]string{true: "StartDebug", false: "StartEval"}[sc.debug],
+				map[bool]string{true: "Raw", false: "Stock"}[sc.raw], coqCmds(sc.s), coqStops(st)))
 			if idx%41 == 5 {
 				rep.Sample(map[string]interface{}{"program": p.Decls, "call": p.Call, "debug": sc.debug, "script": sc.s, "stops": st, "trace_len": len(tr)})
 			}
 		}
-		cw.Add(fmt.Sprintf("mkCase %d %s %s", idx, coqTrace(tr), vh.CoqList(cscripts, "(start * list cmd * list stop)")))
+		cw.Add(fmt.Sprintf("mkCase %d %s %s", idx, coqTrace(tr), vh.CoqList(cscripts, "(start * layer * list cmd * list stop)")))
 		rep.CaseInput(idx, map[string]interface{}{"prog": p})
 		idx++
 	}
